@@ -818,7 +818,10 @@ def get_rdata_class(rdclass, rdtype, use_generic=True):
                     pass
     if not cls and use_generic:
         cls = GenericRdata
-        _rdata_classes[(rdclass, rdtype)] = cls
+        if rdclass != dns.rdataclass.ANY:
+            # (ANY, rdtype) is also the class-independent slot consulted above for
+            # every class; the generic fallback must not occupy it.
+            _rdata_classes[(rdclass, rdtype)] = cls
     return cls
 
 
